@@ -230,6 +230,20 @@ func (s *vsSUT) Step(act map[string]interface{}) (map[string]interface{}, interf
 			r.Cmd = wire.CmdTx
 			r.Hash = s.hash
 			m = &r
+		case "Y":
+			// getdata for something else (e.g. a transaction another,
+			// overlapping broadcast announced to the same peer)
+			gd := wire.NewMsgGetData()
+			for n := 1 + s.rng.Intn(2); n > 0; n-- {
+				var h chainhash.Hash
+				s.rng.Read(h[:])
+				it := wire.InvTypeWitnessTx
+				if s.rng.Intn(3) == 0 {
+					it = wire.InvTypeWitnessBlock
+				}
+				_ = gd.AddInvVect(wire.NewInvVect(it, &h))
+			}
+			m = gd
 		case "X":
 			sp := vsSpellings[1+s.rng.Intn(5)]
 			r := sp[s.rng.Intn(len(sp))]
